@@ -133,3 +133,21 @@ def uf_real(name, *args):
         import scipy.stats
         return float(scipy.stats.norm.cdf(args[0], loc=0, scale=args[1]))
     raise NotImplementedError("uf_real(%s) has no native reading" % name)
+
+
+SQL = {}
+
+
+def sql(text, **kw):
+    def deco(fn):
+        SQL[" ".join(text.split())] = (fn, kw)
+        return fn
+    return deco
+
+
+def db_sealed():
+    return False
+
+
+def db_rows(table):
+    return []
